@@ -195,9 +195,19 @@ def ob_penalty(env, which="upper"):
         env.claim("mask=outside_fraction_when_lower_face_outside", core.implies(in2 & (z1 < zbot), SymBool(core.lift_real(m) == core.lift_real(frac_lo))))
         env.claim("mask_in_[0,1]", (m >= 0) & (m <= 1))
     else:
+        # same claims (same names) on plain floats, so that a solver counterexample is replayed claim by claim
         a, b = bool(in1), bool(in2)
-        want = 0.0 if (a and b) else (1.0 if (not a and not b) else ((z2 - ztop) / (z2 - z1) if a else (zbot - z1) / (z2 - z1)))
-        env.claim("mask_value(concrete)", abs(float(m) - want) < 1e-9)
+        mm = float(m)
+        close = lambda x, y: abs(x - y) < 1e-9   # noqa: E731
+        if a and b:
+            env.claim("mask=0_when_both_faces_inside", close(mm, 0.0))
+        if not a and not b:
+            env.claim("mask=1_when_both_faces_outside", close(mm, 1.0))
+        if a and z2 > ztop:
+            env.claim("mask=outside_fraction_when_upper_face_outside", close(mm, (z2 - ztop) / (z2 - z1)))
+        if b and z1 < zbot:
+            env.claim("mask=outside_fraction_when_lower_face_outside", close(mm, (zbot - z1) / (z2 - z1)))
+        env.claim("mask_in_[0,1]", -1e-12 <= mm <= 1 + 1e-12)
 
 
 def _mk_orientation(nv):
